@@ -66,6 +66,10 @@ func (p *FloatingIPPlugin) allocateInSubnetWithKey(oldK, newK, subnet string, at
 	if err != nil {
 		return err
 	}
+	if fip == nil {
+		// First returns nil if the ip is gone, e.g. the reserved floatingip object was deleted in the meantime
+		return fmt.Errorf("failed to find the ip allocated to %s from %s during %s", newK, oldK, when)
+	}
 	glog.Infof("allocated ip %s to %s from %s during %s", fip.IPInfo.IP.String(), newK, oldK, when)
 	return nil
 }
